@@ -33,6 +33,27 @@ def _frames(text):
     return out
 
 
+def _frames_full(text):
+    out = []
+    for line in text.splitlines():
+        m = FRAME.match(line)
+        if m and "chialisp::" in m.group(1):
+            out.append(m.group(1))
+    return out
+
+
+def _module(fn):
+    """the source module a frame belongs to: the last all-lower-case path segment before the function name"""
+    fn = re.sub(r"::h[0-9a-f]{16}$", "", fn)
+    fn = re.sub(r"::\{\{closure\}\}", "", fn)
+    fn = fn.replace("<", "").replace(">", "")
+    if " as " in fn:
+        fn = fn.split(" as ")[0]
+    parts = [p for p in fn.split("::") if p]
+    mods = [p for p in parts[:-1] if re.fullmatch(r"[a-z0-9_]+", p) and p != "chialisp"]
+    return mods[-1] if mods else "?"
+
+
 def crash_signature(cmd, env, cwd, timeout=240):
     try:
         p = subprocess.run(["gdb", "-q", "-batch", "-ex", "set pagination off", "-ex", "run", "-ex", "bt 400", "--args"] + cmd, env=env, cwd=cwd,
@@ -51,32 +72,49 @@ def crash_signature(cmd, env, cwd, timeout=240):
     return "overflow:" + "+".join(cyc), None
 
 
+def _sample(pid):
+    """chialisp frames (full names) of the thread that has most of them, outermost first (outer 60 frames)"""
+    g = subprocess.run(["gdb", "-q", "-batch", "-p", str(pid), "-ex", "set pagination off", "-ex", "thread apply all bt -60"],
+                       stdout=subprocess.PIPE, stderr=subprocess.STDOUT, text=True, timeout=120)
+    best = []
+    for block in re.split(r"\nThread \d+ ", g.stdout):
+        fr = _frames_full(block)
+        if len(fr) > len(best):
+            best = fr
+    return list(reversed(best))
+
+
 def hang_signature(cmd, env, cwd, settle=25):
+    """Signature of a run that does not end: hang:<entry>><home module>.  `entry` is the outermost chialisp frame (the tool
+    entry point that does not return); `home` is the source module of the innermost frame of the part of the stack that
+    stays put over three samples taken 2 s apart (where the process keeps coming back to: a loop's own frame or the head of a
+    runaway recursion; the exact function varies with the input, its module does not).  Two non-terminating defects reached
+    through the same entry point but living in different modules get different signatures."""
     p = subprocess.Popen(cmd, env=env, cwd=cwd, stdout=subprocess.DEVNULL, stderr=subprocess.DEVNULL)
+    stacks = []
     try:
         time.sleep(settle)
-        if p.poll() is not None:
-            return None, f"terminated by itself (rc={p.returncode})"
-        g = subprocess.run(["gdb", "-q", "-batch", "-p", str(p.pid), "-ex", "set pagination off", "-ex", "thread apply all bt 300", "-ex", "echo ===OUTER===\\n", "-ex", "thread apply all bt -40"], stdout=subprocess.PIPE, stderr=subprocess.STDOUT, text=True, timeout=120)
-        inner_txt, _, outer_txt = g.stdout.partition("===OUTER===")
-        fr = _frames(inner_txt)
-        outer = _frames(outer_txt)
+        for k in range(3):
+            if p.poll() is not None:
+                return None, f"terminated by itself (rc={p.returncode})"
+            st = _sample(p.pid)
+            if st:
+                stacks.append(st)
+            time.sleep(2)
     finally:
         p.kill()
         p.wait()
-    if not fr:
+    if not stacks:
         return None, "no chialisp frames"
-    # entry point: the outermost chialisp frame; where: the compiler phase that occurs most often
-    entry = (outer or fr)[-1]
-    phases = {}
-    for f in fr:
-        ph = _phase(f)
-        if ph:
-            phases[ph] = phases.get(ph, 0) + 1
-    where = sorted(phases.items(), key=lambda kv: (-kv[1], kv[0]))[0][0] if phases else "other"
-    # (`where` proved unstable across sampling moments; only the entry point is used)
-    _ = where
-    return f"hang:{entry}", None
+    common = []
+    for fr in zip(*stacks):
+        if all(f == fr[0] for f in fr):
+            common.append(fr[0])
+        else:
+            break
+    if not common:
+        return None, "no stable frames"
+    return f"hang:{_short(common[0])}>{_module(common[-1])}", None
 
 
 PHASES = [
